@@ -16,7 +16,8 @@ RULE = (
     "(build(hist) replays from scratch). Alphabet: w_small, w_large (>= mid interval), w_bad_first (fails before any byte), "
     "w_bad_last (fails after earlier fields were encoded), flush, copy_block(donor codec null/deflate [thorough: +bzip2,xz]; also a "
     "block whose records were iterated before the copy), "
-    "reopen for append with {schema None, same, different schema, other codec, other metadata, other marker}; zero-byte "
+    "reopen for append with {schema None, same, different schema, other codec, other metadata, other marker, stream cursor left "
+    "at the end of the header}; zero-byte "
     "configuration: w_zero, flush, copy_block, reopen. Configurations: codec x sync_interval {1, mid, huge} x validator "
     "on/off, plus three configurations on a real buffered file that is read back through a second handle. ALL histories up to the stated depth are executed; invariant after every flush/reopen: real reader AND the "
     "independent container parser return exactly the reference model's list (records whose write returned normally + "
@@ -38,7 +39,7 @@ S_OTHER = {"type": "record", "name": "Other", "fields": [{"name": "zz", "type": 
 Z = {"type": "record", "name": "Zero", "fields": [{"name": "n", "type": "null"}]}
 
 OPS_S = ["w_small", "w_large", "w_bad_first", "w_bad_last", "flush", "copy_null", "copy_deflate", "copyiter_null",
-         "reopen_none", "reopen_same", "reopen_diff", "reopen_codec", "reopen_meta", "reopen_marker"]
+         "reopen_none", "reopen_same", "reopen_diff", "reopen_codec", "reopen_meta", "reopen_marker", "reopen_midpos"]
 OPS_Z = ["w_zero", "w_zero_omitted", "flush", "copy_null", "reopen_none", "reopen_codec"]
 DEPTH = {"quick": 5, "thorough": 7}
 PREFIX = 2
@@ -182,6 +183,9 @@ class World:
             elif how == "marker":
                 kw["sync_marker"] = b"X" * 16
             self.fo.seek(0, 2)
+            if how == "midpos":
+                # the stream was just inspected (e.g. its header read): the cursor is non-zero but not at the end
+                self.fo.seek(self.hdr_end)
             self.w = self.Writer(self.fo, schema, **kw)
         else:
             raise AssertionError(op)
